@@ -33,19 +33,25 @@ HllLen(e) ==
 SizeOK(e) ==
   CASE e.fam = "hll"   -> /\ e.len = HllLen(e)
                           /\ (e.mode = "list" => e.count < 8)
-                          /\ (e.mode = "set" => 4 * e.count <= 3 * P2(e.lgk - 3) /\ e.lgk >= 8)
+                          \* (a sketch that started from a decoded coupon-set image keeps a table no larger than
+                          \* the larger of the configuration's and the image's, lgarr0)
+                          /\ (e.mode = "set" =>
+                                IF "lgarr0" \in DOMAIN e
+                                THEN 4 * e.count <= 3 * P2(IF e.lgarr0 > e.lgk - 3 THEN e.lgarr0 ELSE e.lgk - 3)
+                                ELSE 4 * e.count <= 3 * P2(e.lgk - 3) /\ e.lgk >= 8)
     [] e.fam = "theta" -> /\ e.retained <= (15 * P2(e.lgk + 1)) \div 16
                           /\ (e.trimmed => e.retained <= P2(e.lgk))
     [] e.fam = "fi"    -> e.active <= (3 * P2(e.lgmax)) \div 4
     [] e.fam = "bloom" -> e.len = (IF e.used = 0 THEN 24 ELSE 32 + e.cap \div 8)
     [] e.fam = "cm"    -> e.len = (IF e.empty THEN 16 ELSE 24 + 8 * e.d * e.w)
     [] e.fam = "td"    -> e.nc <= 2 * e.k + 30 /\ e.len <= 32 + 16 * (2 * e.k + 30)
-    [] e.fam = "cpc"   -> TRUE       \* counted: see CpcRateOK
+    [] e.fam = "cpc"   -> TRUE       \* counted: see TrEnd
+    [] e.fam = "cpcu"  -> e.rlgk <= e.ulgk   \* a union result: never finer than the union was configured; size counted likewise
 
 TrSize ==
   /\ IsEv("Size")
   /\ On("C18") => SizeOK(Ev)
-  /\ IF Ev.fam = "cpc" THEN over' = over + (IF Ev.len > Ev.maxlen THEN 1 ELSE 0) /\ total' = total + 1
+  /\ IF Ev.fam \in {"cpc", "cpcu"} THEN over' = over + (IF Ev.len > Ev.maxlen THEN 1 ELSE 0) /\ total' = total + 1
      ELSE UNCHANGED <<over, total>>
 
 \* CPC images exceed max_serialized_bytes(lg_k) no more often than the documented 0.1%. Allowed(n): the
